@@ -271,6 +271,21 @@ pub fn run(ctx: &Ctx) -> Outcome {
                     }
                 }
             }
+            // chunks whose bytes are themselves the text of a well-formed frame line (with and without CR LF; a log of the bus
+            // shown on a sign, a bridge's tunnel): data is data
+            for inner in fixed_messages(0x0011).into_iter().chain([RefMsg::Data { offset: 0x0010, data: vec![1, 2, 3] }, RefMsg::Data { offset: 0, data: (0..100).collect() }]) {
+                let (a, t, d) = refs::build(&inner);
+                for line in [refs::enc(a, t, &d), refs::enc_crlf(a, t, &d), refs::enc(a, t, &d).to_ascii_lowercase()] {
+                    if line.len() <= 255 {
+                        for offset in [0u16, 0x0010, a] {
+                            let m = RefMsg::Data { offset, data: line.clone() };
+                            let w = check_message(&m, rep);
+                            inj.note(w, &m, rep);
+                            rep.count("chunks_that_spell_a_frame");
+                        }
+                    }
+                }
+            }
             for (k, d) in refs::sparse_data().into_iter().enumerate() {
                 let m = RefMsg::Data { offset: [0x0000u16, 0x0010, 0xFFF0][k % 3], data: d };
                 let w = check_message(&m, rep);
@@ -323,6 +338,7 @@ pub fn run(ctx: &Ctx) -> Outcome {
         floor("all 65536 addresses swept", report.get("addresses_swept") == 65_536, report.get("addresses_swept")),
         floor("chunks whose fields coincide (offset bytes and every data byte one value; checksum equal to another field)", report.get("coincidence_chunks") == 2240, report.get("coincidence_chunks")),
         floor("chunks that are all 00 / all FF but for one byte, at every position of every length 1..=40 and 248..=255", report.get("sparse_chunks") > 5_000, report.get("sparse_chunks")),
+        floor("chunks whose bytes are the text of a well-formed frame line", report.get("chunks_that_spell_a_frame") > 250, report.get("chunks_that_spell_a_frame")),
         floor("data-chunk sweep done", report.get("data_sweep_done") == 1, report.get("data_sweep_done")),
         floor("longest chunks of FF / 80 / 7F under offsets of the same value (largest unsigned and signed byte sums)", report.get("extreme_byte_sum_chunks") == 6 * 6 * 4 * 3, report.get("extreme_byte_sum_chunks")),
         floor("every data length 0..=255 observed", report.set_len("data_lengths") == 256, report.set_len("data_lengths")),
